@@ -201,7 +201,7 @@ def _universe():
     out.extend(chr(c) for c in range(0x4E00, 0x9FA0, 97))
     out.extend(chr(c) for c in range(0xAC00, 0xD7A0, 211))
     out.extend("«»„“”‘’–—…€™©®°±§¶·")
-    out.extend(["\U0001f600", "\U00020000", "\U0001d11e", "\U00010400"])
+    out.extend(["\U0001f600", "\U00020000", "\U0001d11e", "\U00010400", "\ufeff"])
     return out
 
 
@@ -244,6 +244,15 @@ def repertoire(label):
                     pass
             if codec == "iso2022_jp":
                 r = [ch for ch in r if ch not in "\\~"]
+            if codec == "euc_jp":
+                # Python's euc_jp also encodes JIS X 0212, which the WHATWG euc-jp *encoder* does not
+                def in_0208(ch):
+                    try:
+                        ch.encode("shift_jis")
+                        return True
+                    except UnicodeError:
+                        return False
+                r = [ch for ch in r if in_0208(ch)]
         _REPERTOIRE[label] = r
     return r
 
@@ -341,12 +350,13 @@ def xc_charset(o, b, e):
         return None
 
 
-GZ_LEVELS = [0, 1, 2, 3, 4, 5, 6, 7, 8, 9, 10, 11, -1]
+GZ_LEVELS = [0, 1, 2, 3, 4, 5, 6, 7, 8, 9] * 3 + [10, 11, -1]
 # (levels, inputs per batch): higher levels cost 0.1 .. 1 s of context set-up per call in this build
-ZSTD_TIERS = [([-131072, -50, -7, -1, 0, 1, 2, 3, -2147483648, 4294967299], 24, 0.80),
-              ([4, 5, 6], 8, 0.13),
-              ([7, 9, 12, 15, 19], 1, 0.05),
-              ([20, 22, 23, 100, 2147483647], 1, 0.02)]
+ZSTD_TIERS = [([-131072, -50, -7, -1, 0, 1, 2, 3, -2147483648, 4294967299], 24),
+              ([4, 5, 6], 8),
+              ([7, 9, 12, 15, 19], 1),
+              ([20, 22, 23, 100, 2147483647], 1)]
+ZSTD_WEIGHTS = {"quick": [0.86, 0.12, 0.02, 0.0], "thorough": [0.75, 0.13, 0.08, 0.04]}
 ZSTD_ALL = [l for t in ZSTD_TIERS for l in t[0]]
 
 HANDLERS = {
@@ -433,7 +443,7 @@ def gen_case(ctx, rng):
     n = BATCH
     big_ok = codec in ("lz4", "zstd", "snappy", "gzip", "zlib")
     if codec == "zstd" and "compression_level" in enc_opts:
-        levels, n, _ = rng.choices(ZSTD_TIERS, [t[2] for t in ZSTD_TIERS])[0]
+        levels, n = rng.choices(ZSTD_TIERS, ZSTD_WEIGHTS.get(ctx.tier, ZSTD_WEIGHTS["quick"]))[0]
         enc_opts["compression_level"] = rng.choice(levels)
         big_ok = n == BATCH
     # decoder options
@@ -604,6 +614,10 @@ def build_frames(frame, inputs, chunks, enc_results):
                 blocks.append((part, True))
             elif r[0] != "ok":
                 bad = True
+            elif len(r[1]) >= len(part):
+                # the frame format stores a block uncompressed when compression does not shrink it
+                # (a "compressed" block larger than the block maximum size is not a valid frame)
+                blocks.append((part, True))
             else:
                 blocks.append((r[1], False))
         frames.append(None if bad else lz4frame.build_frame(
@@ -756,5 +770,11 @@ def run_case(ctx, case):
             # the encoder declared a character unmappable (numeric character reference): our idea of the
             # charset's repertoire (taken from Python's codec) is wider than the WHATWG encoder's
             ctx.skip("charset_repertoire_doubt:" + enc_opts.get("to_charset", "?"))
+            continue
+        if codec == "charset" and side is not False and er[1].startswith((b"\xfe\xff", b"\xff\xfe", b"\xef\xbb\xbf")):
+            # one defect for every charset: the encoded text happens to start with the bytes of a
+            # UTF-16 / UTF-8 byte order mark and the decoder does not honour the requested charset
+            ctx.note("charsets_hit_by_bom_bytes", osig)
+            ctx.violation("charset:encoded_text_starts_with_bom_bytes:%s" % what, detail, case=one)
             continue
         ctx.violation("%s:%s:%s" % (codec, osig, what), detail, case=one)
